@@ -143,7 +143,7 @@ def square_case(rng, tag, A, integer, ops_extra=True):
 
 def generate(seed, tier):
     rng = random.Random(seed)
-    N = 2400 if tier == "thorough" else 420
+    N = 9000 if tier == "thorough" else 1100
     cases = []
     # fixed edge cases ---------------------------------------------------------------
     sm_lo, sm_hi = nextafter(SMALL, False), nextafter(SMALL, True)
@@ -205,13 +205,16 @@ def compare(op_line, impl, model):
 
 
 def coverage_extra(cases, answers):
-    sizes, fam, stor = {}, {}, {}
+    sizes, fam, stor, kappa, nxs = {}, {}, {}, {}, {}
     swaps = zero_piv = zerodiv = solved = ub = 0
     for c, a in zip(cases, answers):
         head = c[0].split()
         tag = head[1]
         f = "".join(ch for ch in tag.split("_")[0] if not ch.isdigit())
         fam[f] = fam.get(f, 0) + 1
+        if "_k1e" in tag:
+            e = "1e" + tag.split("_k1e")[1]
+            kappa[e] = kappa.get(e, 0) + 1
         stor["/".join(head[2:5])] = stor.get("/".join(head[2:5]), 0) + 1
         ops = [l for l in c[1:]]
         for l, r in zip(ops, a or []):
@@ -228,10 +231,14 @@ def coverage_extra(cases, answers):
                     nn = int(u[1]); vals = u[2:]
                     if any(vals[i * nn + i] in ("0000000000000000", "8000000000000000") for i in range(nn)):
                         zero_piv += 1
+            if t[0] == "solve":
+                nxs[t[2]] = nxs.get(t[2], 0) + 1
             if t[0] in ("solve", "solvev", "inv"):
                 if r == "exc:zerodiv": zerodiv += 1
                 elif r.startswith("minD"): solved += 1
             if r.startswith("crash"): ub += 1
     return {"lu_sizes": dict(sorted(sizes.items())), "families": fam, "storage_triples": len(stor),
+            "prescribed_condition_numbers": dict(sorted(kappa.items(), key=lambda kv: float(kv[0]))),
+            "rhs_columns": dict(sorted(nxs.items())),
             "factorisations_with_row_exchange": swaps, "factorisations_with_exact_zero_pivot": zero_piv,
             "solves_returned": solved, "solves_refused_singular": zerodiv, "ub_inputs_aborted": ub}
